@@ -13,6 +13,10 @@ claim("C03",
       "error-discipline dataflow (every non-nil path of every storage/mapping error in check and expand reaches an escape, by CFG must-pass counting); abstract execution of every Result combinator over the six-point domain {Unknown,IsMember,NotMember}x{nil,err} with a contract table per role; producer/consumer audit of Membership vs Err",
       "Decides that no storage error is dropped by the engines, that no producer or combinator can pair IsMember with an error, and that consumers of Membership are covered; does not decide equality with the fault-free answer. Right level: dropped errors and flipped error results are shape facts of each function.")
 
-for p in ["C01","C02","C04","C05","C06","C07","C08","C09","C11","C12","C13","C14","C16","C18","C19"]:
+claim("C02",
+      "finite-domain evaluation of the depth clamp over every ordering of (request depth, 0, global limit) at every entry into the engine, followed through callers; dominance check of the depth guards; out-of-band cut-off marker typestate (every cut-off site marks, every negation reads the flag before inverting and installs it on both context routes); schema-backed range check of the width truncation; Unknown-row of every combinator's decision table",
+      "Decides the clamp, the guards, that a cut-off always reaches every negation before it may answer IsMember, and the truncation bound; does not decide equivalence with a server configured at the effective depth. Right level: these are shape facts (which value is passed, which branch dominates which call).")
+
+for p in ["C01","C04","C05","C06","C07","C08","C09","C11","C12","C13","C14","C16","C18","C19"]:
     na(p, NOTBUILT)
 na("C10", "semantic equivalence between the parser's output and TypeScript's grammar over all programs: precedence/associativity is not a code shape every correct parser shares; no sound structural necessary condition found (and the property is known to be violated: a||b&&c parses as (a||b)&&c), so a static green light would be misleading")
